@@ -46,6 +46,7 @@ class BlockingOracle(FOracle):
         self.push_now = {}
         self.met_full = set()
         self.met_free = set()
+        self.unit_sizes = {}
 
     def v(self, nid, sig, msg):
         if nid in self.dead:
@@ -73,9 +74,21 @@ class BlockingOracle(FOracle):
         return src.log[j][2] if j < len(src.log) else None
 
     def on_entry(self, f, e):
+        if e.exc is None and e.op == "get":
+            nid = f.edge_spec[e.edge]["dst"]
+            if self.kinds.get(nid) == "Splitter" and isinstance(getattr(e.item, "items", None), list):
+                self.unit_sizes[(nid, len(self.book.pulls[nid]) - 1)] = len(e.item.items) + 1
         if e.exc is not None or e.op != "put":
             return
         nid = f.edge_spec[e.edge]["src"]
+        if self.kinds[nid] == "Splitter" and not f.node_spec[nid].get("blocking", True):
+            pl = self.book.pulls[nid]
+            if pl:
+                d = self.delay_of(f, nid, len(pl) - 1)
+                if d is not None and e.t != pl[-1][0] + d:
+                    self.v(nid, self.sig(f, nid, "waited_nonblocking"),
+                           "non-blocking %s emitted %s at %s but its pallet was ready at %s" % (
+                               nid, getattr(e.item, "id", e.item), e.t, pl[-1][0] + d))
         ns = f.node_spec[nid]
         if ns.get("blocking", True):
             tp = self.book.t_pull.get((nid, id(e.item)))
@@ -118,6 +131,35 @@ class BlockingOracle(FOracle):
                 if disc != 0:
                     self.v(nid, self.sig(f, nid, "discarded_while_blocking"), "blocking %s has num_item_discarded=%d (t=%s)" % (nid, disc, now))
                 continue
+            # a non-blocking node never waits: it reserves space only after can_put() said yes, so no space request
+            # of its own may be pending (or granted and unused) when the instant ends
+            live = [t for t in f.toks.values() if t.node == nid and t.side == "p" and t.state in ("pending", "granted")]
+            if live:
+                self.v(nid, self.sig(f, nid, "waited_nonblocking", "live_request"),
+                       "non-blocking %s still holds a %s space request on %s (issued at %s) at the end of instant %s: it is waiting with a finished item" % (
+                           nid, live[0].state, live[0].edge, live[0].t_issue, now))
+                continue
+            if kind == "Splitter":
+                pl = self.book.pulls[nid]
+                expected = 0
+                known = True
+                for j in range(len(pl)):
+                    d = self.delay_of(f, nid, j)
+                    if d is None:
+                        known = False
+                        break
+                    if pl[j][0] + d == now:        # several pallets may become ready in one instant (zero delays)
+                        n_units = self.unit_sizes.get((nid, j))
+                        if n_units is None:
+                            known = False
+                            break
+                        expected += n_units
+                if known and expected:
+                    pushes_here = [p for p in self.book.pushes[nid] if p[0] == now]
+                    if len(pushes_here) + dD != expected:
+                        self.v(nid, self.sig(f, nid, "waited_nonblocking" if len(pushes_here) + dD < expected else "counter"),
+                               "%s at t=%s: pallets becoming ready now need %d emissions (items + pallets); %d pushed and discard counter +%d" % (
+                                   nid, now, expected, len(pushes_here), dD))
             outs = set(f.out_edge_ids(nid))
             pr = [p for p in new_probes if p[2] in outs and p[0] == now]
             groups = {}
